@@ -15,7 +15,7 @@ MODULES = {
               ["array", "bytes", "bytearray", "int", "bin", "hexlify", "unhexlify", "str", "BytesIO", "is_hex_string"],
               {"BloomFilter": ["_FOOTER_STRUCT", "_FOOTER_STRUCT_BE", "_IMPT_STRUCT"],
                "BloomFilterOnDisk": ["_EXPECTED_ELM_STRUCT", "_UPDATE_OFFSET"]}),
-    "countingbloom": ("probables.blooms.countingbloom", ["array", "bytes"], {"CountingBloomFilter": ["_IMPT_STRUCT"]}),
+    "countingbloom": ("probables.blooms.countingbloom", ["array", "bytes", "is_hex_string"], {"CountingBloomFilter": ["_IMPT_STRUCT"]}),
     "expanding": ("probables.blooms.expandingbloom", ["array", "bytes", "int", "BytesIO"],
                   {"ExpandingBloomFilter": ["_ExpandingBloomFilter__FOOTER_STRUCT", "_ExpandingBloomFilter__S_INT64_STRUCT"]}),
     "cms": ("probables.countminsketch.countminsketch", ["array", "bytes", "BytesIO"],
@@ -137,3 +137,73 @@ def blob_eq(ctx, a, b):
             return ctx.and_([ctx.eq(x[0], y[0]) for x, y in zip(a.chunks, b.chunks)])
         return ctx.and_([ctx.eq(x, y) for x, y in zip(a.byte_list(), b.byte_list())])
     return bytes(a) == bytes(b)
+
+
+# ---------------------------------------------------------------------------- file system facade
+FS_NAMES = {
+    "bloom": ["open", "resolve_path", "is_valid_file", "copyfile", "MMap", "mmap", "Path"],
+    "countingbloom": ["resolve_path", "is_valid_file"],
+    "expanding": ["open", "resolve_path", "is_valid_file", "MMap", "mmap"],
+    "cms": ["open", "resolve_path", "is_valid_file", "MMap", "mmap"],
+    "cuckoo": ["open", "resolve_path", "is_valid_file", "MMap", "mmap"],
+    "countingcuckoo": ["open", "resolve_path", "MMap", "mmap"],
+}
+
+
+class FS:
+    """symbolic mode: the VFS model installed into the named library modules; concrete mode: real files in a temp dir
+    (directory ids become sub-directories, chdir is a real os.chdir)"""
+
+    def __init__(self, ctx, mods, cwd=0):
+        self.ctx = ctx
+        if ctx.sym:
+            from . import vfs
+            self.v = vfs.VFS(ctx, cwd)
+            for m in mods:
+                self.v.install(ctx, mod(m), FS_NAMES[m])
+        else:
+            import tempfile
+            self.root = tempfile.mkdtemp(prefix="pvx-replay-")
+            self.old = os.getcwd()
+            self.chdir(cwd)
+            ctx.on_exit(self.cleanup)
+
+    def _dir(self, d):
+        p = os.path.join(self.root, f"d{int(d)}")
+        os.makedirs(p, exist_ok=True)
+        return p
+
+    def path(self, d, name):
+        if self.ctx.sym:
+            from . import vfs
+            return vfs.VPath(d, name)
+        return os.path.join(self._dir(d), name)
+
+    def chdir(self, d):
+        if self.ctx.sym:
+            self.v.cwd = d
+        else:
+            os.chdir(self._dir(d))
+
+    def read(self, d, name):
+        if self.ctx.sym:
+            f = self.v.lookup(self.path(d, name))
+            return None if f is None else f.content()
+        p = self.path(d, name)
+        return open(p, "rb").read() if os.path.exists(p) else None
+
+    def write(self, d, name, blob):
+        if self.ctx.sym:
+            h = self.v.open(self.path(d, name), "wb")
+            h.write(blob)
+            h.close()
+        else:
+            with open(self.path(d, name), "wb") as f:
+                f.write(bytes(blob))
+
+    def cleanup(self):
+        import shutil
+        try:
+            os.chdir(self.old)
+        finally:
+            shutil.rmtree(self.root, ignore_errors=True)
